@@ -507,23 +507,33 @@ def abstract_trace(s, r):
 
 
 RULES = {
-    "C10": "Cases are run specs: (a) ENUMERATED single-fault sweep - every constexpr corpus entry x helper-invocation index x "
-           "fault point, each followed by the same request fault-free; (b) seeded random histories of 1-6 requests from the "
-           "K/E/O/R/T families with multi-fault plans and odd option values; (c, thorough) every prefix of every repository "
-           "program. Two runs are the same case if their abstract trace is equal: per request (corpus family, option class, "
-           "outcome class code/error/internal/raised/hang, set of fault kinds that FIRED, options style). A case is "
-           "non-trivial if at least one fault fired in it or two consecutive requests differ in option class / touch a "
-           "cache-relevant family. distinct_nontrivial counts distinct non-trivial abstract traces.",
-    "C11": "Cases are histories of 2-30 compile requests executed in one forked pristine interpreter with a controlled "
-           "PYTHONHASHSEED, each result compared with the stateless reference (same request, first thing in a fresh hash-seed-0 "
-           "process). Abstract trace as for C10. Non-trivial: contains an ordered pair of requests with different option "
-           "classes, a cache-relevant family transition, or a fired helper fault. distinct_nontrivial counts distinct "
+    "C10": "Cases are run specs, in this order: (a) DIRECTED batches - every corpus entry compiled once (12 per run), constexpr-related pairs "
+           "as a,b,a, programs that compile to nothing under every output-decorating option set, the same runaway program 7 times in a "
+           "row (fault-free and with the same helper fault every time), five expression shapes swept across the recursion limit, fixed "
+           "scheduling plans; (b) ENUMERATED single-fault sweep - constexpr corpus entry x helper-invocation index x fault point, each "
+           "followed by the same request fault-free (quick: all points for the core entries, one point per fault kind for the others; "
+           "thorough: everything); (c) seeded random histories of 1-6 requests from the K/E/O/R/T families with multi-fault plans, odd "
+           "option values, clock jumps, scheduling plans; (d, thorough) every prefix of every repository program. Two runs are the same "
+           "case if their abstract trace is equal: per request (corpus family, option class, outcome class code/error/internal/raised/"
+           "hang, set of fault kinds that FIRED, options style). A case is non-trivial if at least one fault fired in it or two "
+           "consecutive requests differ in option class / touch a cache-relevant family. distinct_nontrivial counts distinct "
            "non-trivial abstract traces.",
-    "C14": "Cases are simulated daemon lifetimes: the real mod_daemon module run as __main__ on simulated descriptors, driven "
-           "by a client model. Run shape = (client mode, chunking class, termination, set of malformed-line classes present, "
-           "set of fault kinds fired, request stolen by a leaked helper?, stdin error mode); abstract trace = shape + sequence "
-           "of (family, line kind). Non-trivial: at least one malformed/empty/blank/torn line or fired fault. "
-           "distinct_nontrivial counts distinct non-trivial abstract traces.",
+    "C11": "Cases are histories executed in one forked pristine interpreter with a controlled PYTHONHASHSEED, each result compared with "
+           "the stateless reference (same request, first thing in a fresh hash-seed-0 process): (a) DIRECTED - every pair of requests "
+           "known to touch the same state as a,b,a under three calling styles, every corpus entry as first requests of a process at a "
+           "non-zero hash seed, every failing request (compiled compact) followed by state-reading probes, a transient helper fault "
+           "followed by the same and a related request, compact-then-verbose for every mode-sensitive entry, every name-sensitive entry "
+           "under every hash seed of the run; (b) soak histories of 60-300 requests over a small pool; (c) seeded random histories of "
+           "2-30 requests. Abstract trace as for C10. Non-trivial: contains an ordered pair of requests with different option classes, "
+           "a cache-relevant family transition, or a fired helper fault. distinct_nontrivial counts distinct non-trivial abstract traces.",
+    "C14": "Cases are simulated daemon lifetimes: the real mod_daemon module run as __main__ on simulated descriptors, driven by a client "
+           "model: (a) DIRECTED - every constexpr entry and every malformed-line class once (lock-step and pipelined), every helper fault "
+           "point once behind the daemon, CRLF sessions incl. CRLF-terminated EXIT, the same code under different options, large requests "
+           "and replies with short writes, lines of more than a mebibyte, bursts followed at once by EXIT, fixed thread schedules; "
+           "(b) soak sessions of 60-300 lines; (c) seeded random sessions of 1-40 lines. Run shape = (client mode, chunking class, "
+           "termination, set of malformed-line classes present, set of fault kinds fired, request stolen by a helper?, stdin error "
+           "mode); abstract trace = shape + sequence of (family, line kind). Non-trivial: at least one malformed/empty/blank/torn line "
+           "or fired fault. distinct_nontrivial counts distinct non-trivial abstract traces.",
 }
 EXPECTED_PROBES = {
     "C10": ["helper-timeout", "helper-killed", "helper-intrinsic-never-ends", "helper-intrinsic-blocked-on-stdin", "spawn_fail",
